@@ -135,31 +135,51 @@ Qed.
 
 (* ------------------------------------------------------------------ Unmarshal *)
 
+(* robust against a harmless change of the padding constant: any K >= 2 gives the same value *)
+Lemma rt_shape : fst rt_pad = 0%nat /\ (2 <= snd rt_pad)%nat /\ rt_min_len = 2%nat /\ Nat.div rt_width 8 = 4%nat.
+Proof. repeat split. apply Nat.leb_le. reflexivity. Qed.
+
+Lemma aa_shape : fst aa_pad = 1%nat /\ (2 <= snd aa_pad)%nat /\ aa_min_len = 1%nat /\ Nat.div aa_width 8 = 2%nat.
+Proof. repeat split. apply Nat.leb_le. reflexivity. Qed.
+
 Lemma rt_unmarshal_res_eq bs : (2 <= length bs)%nat ->
-  rt_unmarshal_res bs = UOk (le_val (firstn 4 (bs ++ repeat 0 2))).
+  rt_unmarshal_res bs = UOk (le_val (firstn 4 (bs ++ repeat 0 (snd rt_pad)))).
 Proof.
-  intros Hl. unfold rt_unmarshal_res, unmarshal, rt_min_len, rt_pad, rt_width, padded_len. cbn [fst snd].
-  replace (length bs + 2 - length bs)%nat with 2%nat by lia.
-  replace (Nat.div 32 8) with 4%nat by reflexivity.
+  intros Hl. destruct rt_shape as (Hk & Hp & Hm & Hw).
+  unfold rt_unmarshal_res, unmarshal, padded_len. rewrite Hk, Hm, Hw.
+  replace (length bs + snd rt_pad - length bs)%nat with (snd rt_pad) by lia.
   destruct (Nat.ltb_spec (length bs) 2) as [Hc|_]; [lia|].
-  rewrite app_length. cbn [repeat length].
-  destruct (Nat.ltb_spec (length bs + 2) 4) as [Hc|_]; [lia|]. reflexivity.
+  rewrite app_length, repeat_length.
+  destruct (Nat.ltb_spec (length bs + snd rt_pad) 4) as [Hc|_]; [lia|]. reflexivity.
 Qed.
 
 Lemma aa_unmarshal_res_eq bs : (1 <= length bs)%nat ->
-  aa_unmarshal_res bs = UOk (le_val (firstn 2 (bs ++ repeat 0 (Nat.max 2 (length bs) - length bs)))).
+  aa_unmarshal_res bs = UOk (le_val (firstn 2 (bs ++ repeat 0 (Nat.max (snd aa_pad) (length bs) - length bs)))).
 Proof.
-  intros Hl. unfold aa_unmarshal_res, unmarshal, aa_min_len, aa_pad, aa_width, padded_len. cbn [fst snd].
-  replace (Nat.div 16 8) with 2%nat by reflexivity.
+  intros Hl. destruct aa_shape as (Hk & Hp & Hm & Hw).
+  unfold aa_unmarshal_res, unmarshal, padded_len. rewrite Hk, Hm, Hw.
   destruct (Nat.ltb_spec (length bs) 1) as [Hc|_]; [lia|].
   rewrite app_length, repeat_length.
-  destruct (Nat.ltb_spec (length bs + (Nat.max 2 (length bs) - length bs)) 2) as [Hc|_]; [lia|]. reflexivity.
+  destruct (Nat.ltb_spec (length bs + (Nat.max (snd aa_pad) (length bs) - length bs)) 2) as [Hc|_]; [lia|]. reflexivity.
+Qed.
+
+Lemma le_val_firstn_zeros w k : le_val (firstn w (repeat 0 k)) = 0.
+Proof.
+  revert k. induction w as [|w IH]; intros k; [reflexivity|].
+  destruct k as [|k]; cbn [repeat firstn le_val]; [reflexivity|]. rewrite IH. reflexivity.
+Qed.
+
+Lemma le_val_firstn_pad bs w k : (length bs <= w)%nat -> le_val (firstn w (bs ++ repeat 0 k)) = le_val bs.
+Proof.
+  revert w. induction bs as [|x bs IH]; intros w Hl; cbn [app].
+  - apply le_val_firstn_zeros.
+  - destruct w as [|w]; cbn [length] in Hl; [lia|]. cbn [firstn le_val]. rewrite IH by lia. reflexivity.
 Qed.
 
 (* (c) too short: an error, not a value and not a panic *)
 Lemma rt_too_short bs : (length bs < 2)%nat -> rt_unmarshal_res bs = UErr.
 Proof.
-  intros Hl. unfold rt_unmarshal_res, unmarshal, rt_min_len.
+  intros Hl. destruct rt_shape as (_ & _ & Hm & _). unfold rt_unmarshal_res, unmarshal. rewrite Hm.
   destruct (Nat.ltb_spec (length bs) 2) as [_|Hc]; [reflexivity|lia].
 Qed.
 
@@ -174,7 +194,7 @@ Theorem rt_decode bs r : bytes_ok bs -> (2 <= length bs)%nat -> In r rt_spec ->
             N.testbit f (row_pos r) = spec_flag rt_spec (row_name r) bs.
 Proof.
   intros Hbs Hl Hr. eexists. split; [apply rt_unmarshal_res_eq; assumption|].
-  apply (decode_core 3 4 rt_spec rpt_accessors bs 2 r rt_table_ok); try assumption. lia.
+  apply (decode_core 3 4 rt_spec rpt_accessors bs _ r rt_table_ok); try assumption. lia.
 Qed.
 
 Theorem aa_decode bs r : bytes_ok bs -> (1 <= length bs)%nat -> In r aa_spec ->
@@ -189,16 +209,14 @@ Qed.
 (* the value stored for the permitted lengths: the octets read as one little-endian number *)
 Lemma rt_unmarshal_value bs : In (length bs) rt_lengths -> rt_unmarshal_res bs = UOk (le_val bs).
 Proof.
-  intros Hl. rewrite rt_unmarshal_res_eq by (cbn in Hl; lia).
-  destruct bs as [|a [|b [|c [|d bs]]]]; cbn in Hl; try lia;
-    cbn [app repeat firstn le_val]; f_equal; lia.
+  intros Hl. assert (2 <= length bs <= 3)%nat by (cbn in Hl; lia).
+  rewrite rt_unmarshal_res_eq by lia. rewrite le_val_firstn_pad by lia. reflexivity.
 Qed.
 
 Lemma aa_unmarshal_value bs : In (length bs) aa_lengths -> aa_unmarshal_res bs = UOk (le_val bs).
 Proof.
-  intros Hl. rewrite aa_unmarshal_res_eq by (cbn in Hl; lia).
-  destruct bs as [|a [|b [|c bs]]]; cbn in Hl; try lia;
-    cbn [length Nat.max Nat.sub app repeat firstn le_val]; f_equal; lia.
+  intros Hl. assert (1 <= length bs <= 2)%nat by (cbn in Hl; lia).
+  rewrite aa_unmarshal_res_eq by lia. rewrite le_val_firstn_pad by lia. reflexivity.
 Qed.
 
 (* ------------------------------------------------------------------ IE() *)
@@ -518,7 +536,7 @@ Proof.
   - rewrite rt_unmarshal_res_eq by assumption. unfold decode_mon.
     destruct (Nat.ltb_spec (length bs) 2) as [Hc|_]; [lia|]. cbn [status_eqb andb].
     apply (mon_rows_core 3 rt_spec rpt_accessors names bs _ rt_table_ok Hnd Hn).
-    intros r Hr. apply (decode_core 3 4 rt_spec rpt_accessors bs 2 r rt_table_ok); try assumption. lia.
+    intros r Hr. apply (decode_core 3 4 rt_spec rpt_accessors bs _ r rt_table_ok); try assumption. lia.
 Qed.
 
 Theorem aa_decode_mon_model names bs : NoDup names -> names_mon aa_spec names = true -> bytes_ok bs ->
